@@ -59,7 +59,7 @@ def pyv(x) -> str:
 @st.composite
 def parameter(draw, name, tier_name):
     tier = {"A": TIER_A, "B": TIER_B, "C": TIER_C}[tier_name]
-    prim = st.one_of(tier, tier, st.integers(-9, 99), st.booleans())
+    prim = st.one_of(tier, tier, st.integers(-9, 99), st.booleans(), st.just(0))
     loc = draw(st.sampled_from(["query", "query", "path", "header", "cookie"]))
     typ = draw(st.sampled_from(["prim", "prim", "array", "object"] if loc != "cookie" else ["prim", "array"]))
     content = None
@@ -92,7 +92,12 @@ def parameter(draw, name, tier_name):
         value, typ = "seg", "prim"
     if loc in ("header", "cookie") and any(isinstance(v, str) and (not v.isascii() or v != v.strip() or (loc == "cookie" and any(c in v for c in ";, "))) for v in flat):
         value, typ = "tok", "prim"
-    return {"name": name, "in": loc, "style": style, "explode": explode, "typ": typ, "value": value, "content": content}
+    # the document may leave a keyword out when it has its default value (style: form for query / cookie, simple for path / header; explode: true for form)
+    param = {"name": name, "in": loc, "style": style, "explode": explode, "typ": typ, "value": value, "content": content, "spell": draw(st.sampled_from(["both", "both", "omit-default-style", "omit-default-explode", "omit-defaults"]))}
+    if loc == "query" and typ == "object" and _left_out(param) and draw(st.booleans()):
+        # a free-form object the serializer leaves alone (D69b) may also be empty: its neighbours still have to arrive as generated
+        param["value"] = {}
+    return param
 
 
 def schema_for(value):
@@ -149,6 +154,25 @@ def wire_case(draw):
             "free": draw(st.sampled_from([None, None, None, ["header", "anyOf"], ["header", "untyped"], ["cookie", "anyOf"], ["header", "type-list"]]))}
 
 
+def _left_out(p) -> bool:
+    """Does the document leave `style` / `explode` of this array / object parameter out (D69: the serializer reads the raw
+    keywords, so a keyword left out is not given its default and the value goes out as Python's repr or not serialised)."""
+    if p.get("content") or p["typ"] not in ("array", "object"):
+        return False
+    spell = p.get("spell", "both")
+    no_style = spell in ("omit-default-style", "omit-defaults") and p["style"] == {"query": "form", "cookie": "form", "path": "simple", "header": "simple"}[p["in"]]
+    no_explode = spell in ("omit-default-explode", "omit-defaults") and p["explode"] == (p["style"] == "form")
+    # exactly the combinations the serializer has no branch for (the others - e.g. a query array with `explode: false` and no
+    # `style` - are handled and stay under the ordinary oracle)
+    if p["in"] == "path":
+        return no_style or (no_explode and p["style"] == "simple" and p["typ"] == "object")
+    if p["in"] == "query":
+        return no_explode and ((p["typ"] == "object" and p["style"] == "form") or (p["typ"] == "array" and p["style"] in ("pipeDelimited", "spaceDelimited")))
+    if p["in"] == "header":
+        return no_explode and p["typ"] == "object"
+    return False
+
+
 def build_doc(inp) -> tuple[dict, str]:
     path = inp.get("prefix", "/t") + "".join("/{%s}" % p["name"] for p in inp["params"] if p["in"] == "path") + "/end"
     plist = []
@@ -158,6 +182,11 @@ def build_doc(inp) -> tuple[dict, str]:
             d["content"] = {p["content"]: {"schema": schema_for(p["value"])}}
         else:
             d.update(schema=schema_for(p["value"]), style=p["style"], explode=p["explode"])
+            spell = p.get("spell", "both")
+            if spell in ("omit-default-style", "omit-defaults") and p["style"] == {"query": "form", "cookie": "form", "path": "simple", "header": "simple"}[p["in"]]:
+                del d["style"]
+            if spell in ("omit-default-explode", "omit-defaults") and p["explode"] == (p["style"] == "form"):
+                del d["explode"]
         plist.append(d)
     # an optional free parameter: it makes the boundary generator produce several cases around one template of pinned values
     plist.append({"name": "aux", "in": "query", "required": False, "schema": {"type": "integer", "minimum": 1, "maximum": 5}})
@@ -347,6 +376,23 @@ def has_own_delimiter(p) -> bool:
 
 
 def check_wire(ctx: Ctx, inp) -> None:
+    if any(_left_out(p) and p["in"] == "path" for p in inp["params"]):
+        # D69a: an unserialised value in the path (`['#%%']`) damages the rest of the URL as well - whatever differs in such a
+        # request is that finding, not a second one (the same values with the keywords spelled out are generated as often)
+        class _D69(type(ctx)):
+            def disagree(self, signature, message, **detail):
+                return Ctx.disagree(self, "wire:keyword-left-out-is-not-given-its-default:path", f"[{signature}] {message}", **detail)
+
+        original = ctx.__class__
+        ctx.__class__ = _D69
+        try:
+            return _check_wire(ctx, inp)
+        finally:
+            ctx.__class__ = original
+    return _check_wire(ctx, inp)
+
+
+def _check_wire(ctx: Ctx, inp) -> None:
     import schemathesis
     from schemathesis.core import NOT_SET
     from schemathesis.generation import GenerationMode
@@ -404,6 +450,9 @@ def check_wire(ctx: Ctx, inp) -> None:
             case.call()
         except Exception as exc:  # noqa: BLE001
             ctx.case(classes=["send-exception"])
+            if any(_left_out(p) and p["in"] == "path" for p in inp["params"]):
+                ctx.disagree("wire:keyword-left-out-is-not-given-its-default:path", f"case.call() raised {exc!r}"[:300], input=inp)
+                return
             ctx.disagree(f"send-exception:{type(exc).__name__}", f"case.call() raised {exc!r}"[:300], input=inp)
             continue
         log = server.snapshot()
@@ -423,7 +472,10 @@ def check_wire(ctx: Ctx, inp) -> None:
         path_params = [p for p in inp["params"] if p["in"] == "path"]
         if not m or remove_dot_segments(u.path) != u.path:
             feature = "dot-segment" if m and remove_dot_segments(u.path) != u.path or re.search(r"/\.{1,2}(/|$)", u.path) else "other"
-            ctx.disagree(f"wire:path-structure-differs:{feature}", f"request path {u.path!r} is not base path + template with one segment per variable (or is changed by dot-segment removal)", input=inp, request=req.as_json())
+            if any(_left_out(p) and p["in"] == "path" for p in inp["params"]):
+                ctx.disagree("wire:keyword-left-out-is-not-given-its-default:path", f"request path {u.path!r} is not base path + template with one segment per variable", input=inp, request=req.as_json())
+            else:
+                ctx.disagree(f"wire:path-structure-differs:{feature}", f"request path {u.path!r} is not base path + template with one segment per variable (or is changed by dot-segment removal)", input=inp, request=req.as_json())
         else:
             for p, seg in zip(path_params, m.groups()):
                 _judge(ctx, inp, req, p, decode_path_segment(p, seg), seg)
@@ -546,6 +598,9 @@ def _judge(ctx, inp, req, p, decoded, raw):
         return
     if p["in"] == "path" and p["style"] == "matrix" and not p["explode"] and p["typ"] != "prim":
         ctx.disagree("wire:path:matrix-noexplode-omits-the-parameter-name", f"{key} {p['name']}: wire segment {raw!r} for value {p['value']!r}", input=inp, request=req.as_json())
+        return
+    if _left_out(p):
+        ctx.disagree(f"wire:keyword-left-out-is-not-given-its-default:{p['in']}", f"{p['name']} ({key}, spelled {p.get('spell')}): a {p['style']} decoder does not recover {exp!r} from {raw!r}"[:400], input=inp, request=req.as_json())
         return
     ctx.disagree(f"wire:{key}:value-not-recovered", f"{p['name']}: a {p['style']} decoder does not recover {exp!r} from {raw!r} (decoded: {decoded!r})"[:400], input=inp, request=req.as_json())
 
